@@ -9,7 +9,7 @@ Environment stubs (each a *contract* stub, listed in the evidence):
   time()               -> symbolic int now
 """
 from typing import List, Tuple
-import binascii, base64 as _real_b64
+import binascii, json, base64 as _real_b64
 import secure_cookie.cookie as sc
 import clastic.middleware.cookie as CK
 from clastic.middleware.cookie import JSONCookie, SignedCookieMiddleware
@@ -336,3 +336,45 @@ def ob_foreign_key(sk_i: int, fk_i: int) -> bool:
 
 def confirm_foreign_key(sk_i, fk_i):
     return not _foreign_key(sk_i, fk_i)
+
+
+# ---- text values whose encoding uses every base64 sextet (62 and 63 included), at every alignment
+TEXT_ALPHA = ['?', '>', '~', '\x7f', 'a', ' ', 'é', '"', '\\', '€']
+
+
+def _text_roundtrip(pad, c1, c2, shape):
+    text = 'x' * pad + TEXT_ALPHA[c1] + TEXT_ALPHA[c2]
+    v = [text, {'cmp': text}, [text, text + '?'], {text: 1}][shape]
+    try:
+        if JSONCookie.unquote(JSONCookie.quote(v)) != v:
+            return False
+    except Exception:
+        return False          # a value the application stored does not even decode
+    c = JSONCookie({'k': v, 'other': 'kept'}, b'key')
+    back = JSONCookie.unserialize(c.serialize().decode('ascii'), b'key')
+    return dict(back) == {'k': v, 'other': 'kept'}
+
+
+def ob_text_roundtrip(pad: int, c1: int, c2: int, shape: int) -> bool:
+    with untraced():
+        return _text_roundtrip(pad, c1, c2, shape)
+
+
+def confirm_text_roundtrip(pad, c1, c2, shape):
+    """public API: a real application stores the value in one request and reads it back in the next"""
+    from clastic import Application
+    from werkzeug.wrappers import Response
+    from werkzeug.test import Client
+    text = 'x' * pad + TEXT_ALPHA[c1] + TEXT_ALPHA[c2]
+    v = [text, {'cmp': text}, [text, text + '?'], {text: 1}][shape]
+
+    def store(cookie):
+        cookie['k'] = v
+        return Response('stored')
+
+    def read(cookie):
+        return Response(json.dumps(cookie.get('k', 'MISSING')))
+    app = Application([('/store', store), ('/read', read)], middlewares=[SignedCookieMiddleware(secret_key=b'key')])
+    cl = Client(app, Response)
+    cl.get('/store')
+    return json.loads(cl.get('/read').get_data(True)) != v
